@@ -224,5 +224,30 @@ def run (len : A → Seg P → L) (dflt : A) (falsy : P → Bool) : PState P L A
     let (s2, os) := run len dflt falsy s1 ops
     (s2, o :: os)
 
+/-! ### a path and its shallow copy
+`q = copy.copy(p)` (as repaired: `Path.__copy__` gives the copy its own segment list and its own list of cached length
+fractions; everything else is copied by value) yields a second object with the same observable state.  From then on every
+operation names the object it acts on. -/
+inductive Who where
+  | orig
+  | twin
+  deriving DecidableEq, Repr
+
+/-- one tagged operation on the pair (original, copy) -/
+def stepTwin (len : A → Seg P → L) (dflt : A) (falsy : P → Bool) (s : PState P L A × PState P L A) (w : Who) (op : Op P L A) :
+    (PState P L A × PState P L A) × Out P L :=
+  match w with
+  | .orig => let r := step len dflt falsy s.1 op; ((r.1, s.2), r.2)
+  | .twin => let r := step len dflt falsy s.2 op; ((s.1, r.1), r.2)
+
+/-- a tagged history on the pair; the outputs are tagged with the object that produced them -/
+def runTwin (len : A → Seg P → L) (dflt : A) (falsy : P → Bool) :
+    PState P L A × PState P L A → List (Who × Op P L A) → (PState P L A × PState P L A) × List (Who × Out P L)
+  | s, [] => (s, [])
+  | s, (w, op) :: ops =>
+    let r := stepTwin len dflt falsy s w op
+    let r2 := runTwin len dflt falsy r.1 ops
+    (r2.1, (w, r.2) :: r2.2)
+
 end
 end SvgVerif.Model.PathState
